@@ -16,7 +16,9 @@ EXTENDS Naturals, Sequences, TLC
 CONSTANTS Alphabet,   \* symbols allowed inside an item (NL excluded)
           NL,         \* the newline symbol
           MaxItems, MaxLen, MaxChunk,
-          KeepHist    \* TRUE: record the cut vector (behaviour generation)
+          KeepHist,   \* TRUE: record the cut vector (behaviour generation)
+          Deviation   \* "none" | "no-flush" | "drop-acc": slips re-introduced in the model to
+                      \* show that the invariants are not vacuous (they must be violated)
 
 VARIABLES items,  \* the framed items (chosen initially)
           tail,   \* unterminated text after the last frame (may be empty)
@@ -56,7 +58,8 @@ SplitNL(s) ==
 OnNextAcc(a, chunk) ==
     LET lines == SplitNL(chunk)
         l2 == [lines EXCEPT ![1] = a \o lines[1]]
-    IN l2[Len(l2)]
+    IN IF Deviation = "drop-acc" /\ Len(lines) = 1 THEN lines[1]   \* forgets the carry-over
+       ELSE l2[Len(l2)]
 
 OnNextOut(a, chunk) ==
     LET lines == SplitNL(chunk)
@@ -64,7 +67,7 @@ OnNextOut(a, chunk) ==
     IN SubSeq(l2, 1, Len(l2) - 1)
 
 (* unframe().on_completed(): if len(acc) > 0: on_next(acc) *)
-OnCompletedOut(a) == IF Len(a) > 0 THEN <<a>> ELSE <<>>
+OnCompletedOut(a) == IF Len(a) > 0 /\ Deviation # "no-flush" THEN <<a>> ELSE <<>>
 
 -----------------------------------------------------------------------------
 (* The specification of the result: a function of the delivered prefix only *)
